@@ -40,3 +40,50 @@ func VerifRun(hasRules bool, raw RuleRawList, req *bfe_basic.Request, backend bf
 	}
 	return "N", resp.Header, nil
 }
+
+// VerifConf is one rule configuration of a reload history: version and product -> raw rules.
+type VerifConf struct {
+	Version  string
+	Products map[string]RuleRawList
+}
+
+// VerifRunHistory loads the configurations one after the other into ONE module, the way hot reloads do
+// (every product goes through the real ruleListConvert; as in CorsRuleFileLoad a configuration with an invalid
+// rule is rejected as a whole and the table keeps its previous content, otherwise the real CorsRuleTable.Update
+// runs), then drives the two handlers like VerifRun.  Returns the number of configurations that loaded.
+func VerifRunHistory(confs []VerifConf, req *bfe_basic.Request, backend bfe_http.Header) (string, bfe_http.Header, int) {
+	m := NewModuleCors()
+	loaded := 0
+	for _, c := range confs {
+		conf := &CorsRuleConf{Version: c.Version, Config: make(ProductRuleList)}
+		ok := true
+		for product, raw := range c.Products {
+			rules, err := ruleListConvert(raw)
+			if err != nil {
+				ok = false
+				break
+			}
+			conf.Config[product] = rules
+		}
+		if !ok {
+			continue
+		}
+		m.ruleTable.Update(conf)
+		loaded++
+	}
+	ret, resp := m.corsPreflightHandler(req)
+	if ret == bfe_module.BfeHandlerResponse && resp != nil {
+		if resp.StatusCode != bfe_http.StatusNoContent {
+			return "Pstatus", resp.Header, loaded
+		}
+		return "P", resp.Header, loaded
+	}
+	if ret != bfe_module.BfeHandlerGoOn {
+		return "?", nil, loaded
+	}
+	resp = &bfe_http.Response{StatusCode: 200, Header: backend}
+	if m.corsHandler(req, resp) != bfe_module.BfeHandlerGoOn {
+		return "?", nil, loaded
+	}
+	return "N", resp.Header, loaded
+}
